@@ -1,5 +1,6 @@
 """Numeric systems from TLC-generated construction histories, and recording of solve() /
 rail_rep() results as validation cases for spec/TraceSolve.tla."""
+from decwire import excname
 import math
 import warnings
 
@@ -98,7 +99,7 @@ class BuildFailure(Exception):
     def case(self, cid, want=None):
         c = solve_case(None, cid)
         c["built"] = False
-        c["outcome"], c["exc"], c["msg"] = "buildexc", type(self.exc).__name__, ("%s: %s" % (self.op, self.exc))[:160]
+        c["outcome"], c["exc"], c["msg"] = "buildexc", excname(self.exc), ("%s: %s" % (self.op, self.exc))[:160]
         c["failed_call"] = {"op": self.op, "args": self.args_}
         if want is not None:
             c["want"], c["haswant"] = want, False
@@ -195,7 +196,7 @@ def solve_case(s, cid, rail_rep=False, **kw):
             df = s.solve(**kw)
         case["table"] = table_wire(df)
     except Exception as e:
-        case["outcome"], case["exc"], case["msg"] = "exc", type(e).__name__, str(e)[:160]
+        case["outcome"], case["exc"], case["msg"] = "exc", excname(e), str(e)[:160]
         return case
     if rail_rep:
         try:
@@ -206,7 +207,7 @@ def solve_case(s, cid, rail_rep=False, **kw):
             case["hasrail"] = True
         except Exception as e:
             case["hasrail"] = True
-            case["railexc"] = type(e).__name__
+            case["railexc"] = excname(e)
     return case
 
 
